@@ -177,7 +177,18 @@ def evalC19Integrated (ins outs : List String) : Verdict :=
     | _ => .prop "c19_no_error_with_valid_subjective_head" s!"head={head}"
   | _, _, _, _, _ => .bad "C19 integrated"
 
+/-- a call with a dead context owned the head request; the next, healthy call makes its own single request -/
+def evalC19CancelledOwner (ins outs : List String) : Verdict :=
+  match kvNat? ins "store", kv? outs "head", kvNat? outs "reqs", kvNat? outs "slow" with
+  | some st, some head, some reqs, some slow =>
+    let want := if st == 0 then "59" else "40"
+    if slow != 0 then .prop "c19_singleflight_one_request" s!"the call after a cancelled one waited for a request that nobody was making (head={head} reqs={reqs})" else
+    if reqs != 1 then .prop "c19_stale_one_request_with_trusted_head" s!"reqs={reqs} after a cancelled call" else
+    if head != want then .prop "c19_head_result" s!"head={head}, the peers answered {want}" else .ok "cancelledowner"
+  | _, _, _, _ => .bad "C19 cancelledowner"
+
 def evalC19Flight (ins outs : List String) : Verdict :=
+  if kv? ins "kind" == some "cancelledowner" then evalC19CancelledOwner ins outs else
   if kv? ins "kind" == some "integrated" then evalC19Integrated ins outs else
   if kv? ins "kind" == some "headrace" then evalC19HeadRace ins outs else
   if kv? ins "kind" == some "headstale" then evalC19HeadStale ins outs else
